@@ -128,6 +128,28 @@ func scenario(name string, initN int, progs ...prog) sched.Spec {
 			if !ok {
 				return &core.Failure{Sig: "not-linearizable", What: "history is not linearizable to an unbounded FIFO queue (overlapped failed Pops and overlapped Len calls already removed):\n" + sched.FormatHistory(relaxed)}
 			}
+			// a Len that overlaps other calls: whatever instant it reflects, at least the initial values
+			// plus the pushes that had returned before it was called, minus the successful pops that had
+			// begun before it returned, could be popped then — Len is never below that
+			for _, o := range x.Hist {
+				if o.Name != "len" || o.Thread == 0 {
+					continue
+				}
+				low := len(c.init)
+				for _, q := range x.Hist {
+					switch {
+					case q.Name == "push" && q.Ret < o.Call:
+						low++
+					case (q.Name == "pop" || q.Name == "popwait") && q.Call < o.Ret:
+						if pr, isPop := q.Res.(popRes); isPop && pr.OK {
+							low--
+						}
+					}
+				}
+				if n := o.Res.(int); n < low {
+					return &core.Failure{Sig: "Len|below-poppable|in-thread", What: fmt.Sprintf("Len() returned %d although at every instant of the call at least %d values could be popped:\n%s", n, low, sched.FormatHistory(x.Hist))}
+				}
+			}
 			return nil
 		},
 		Probe: func(x *core.Exec, ctx any) *core.Failure {
@@ -161,6 +183,7 @@ func main() {
 			scenario("push|push|pop", init, prog{"push:1"}, prog{"push:2"}, prog{"pop"}),
 			scenario("push,push|pop,pop", init, prog{"push:1", "push:2"}, prog{"pop", "pop"}),
 			scenario("push|pop|len,len", init, prog{"push:1"}, prog{"pop"}, prog{"len", "len"}),
+			scenario("push,push|pop|len,len", init, prog{"push:1", "push:2"}, prog{"pop"}, prog{"len", "len"}),
 			scenario("push,pop|push,pop", init, prog{"push:1", "pop"}, prog{"push:2", "pop"}),
 			scenario("push|pop|push,pop", init, prog{"push:1"}, prog{"pop"}, prog{"push:2", "pop"}),
 			scenario("push|push|push", init, prog{"push:1"}, prog{"push:2"}, prog{"push:3"}),
@@ -175,6 +198,11 @@ func main() {
 		scenario("push|popwait", 0, prog{"push:1"}, prog{"popwait"}),
 		scenario("push,push|popwait,popwait", 0, prog{"push:1", "push:2"}, prog{"popwait", "popwait"}),
 		scenario("push|push|popwait", 0, prog{"push:1"}, prog{"push:2"}, prog{"popwait"}),
+		func() sched.Spec { // two blocked consumers race for each value (the CAS-loss path inside the spin loop)
+			w := scenario("popwait|popwait|push,push", 0, prog{"popwait"}, prog{"popwait"}, prog{"push:1", "push:2"})
+			w.Quick, w.Heavy = 3, true
+			return w
+		}(),
 	)
 	for init := 0; init <= 1; init++ {
 		specs = append(specs,
